@@ -6,6 +6,7 @@ while no job has failed some participant can always move (no deadlock of the pro
 -/
 import ZstdVerif.Model.MTProto
 import ZstdVerif.Model.MT
+import ZstdVerif.Lemmas.ListAux
 namespace ZstdVerif.Props.C11
 open ZstdVerif ZstdVerif.MTProto
 
@@ -356,6 +357,212 @@ theorem no_deadlock_partial (s : St) (hr : RingInv s) (hp : ProgInv s) (hlive : 
         have hns : ¬ x.id < s.serialNext := fun h => hsd ((q2 hin').mpr h)
         have : s.done = s.serialNext := by omega
         simp [step, hfind, this.symm, hsd, hin']
+
+/-! ### the progress invariant is inductive (runs without worker errors and without the caller-written last block) -/
+
+/-- the hypothesis of `no_deadlock_partial`, strengthened so that it is preserved by every step -/
+def ProgInv0 (s : St) : Prop :=
+  s.done ≤ s.serialNext ∧ s.serialNext ≤ s.next ∧
+  ∀ x ∈ s.jobs, x.failed = false ∧ x.inline = false ∧ (x.serialDone = true ↔ x.id < s.serialNext) ∧ x.flushed ≤ x.cSize ∧ x.consumed ≤ x.srcSize
+
+def plain : Ev → Bool
+  | .fail _ => false
+  | .inline _ _ => false
+  | _ => true
+
+theorem mem_updJob (s : St) (j : Nat) (f : Job → Job) (y : Job) (hy : y ∈ (updJob s j f).jobs) :
+    ∃ y0 ∈ s.jobs, y = if y0.id == j then f y0 else y0 := by
+  unfold updJob at hy
+  simp only [List.mem_map] at hy
+  obtain ⟨y0, h0, rfl⟩ := hy
+  exact ⟨y0, h0, rfl⟩
+
+theorem ids_of_ring (s : St) (h : RingInv s) (x : Job) (hx : x ∈ s.jobs) : s.done ≤ x.id ∧ x.id < s.next := by
+  obtain ⟨h1, h2, h3⟩ := h
+  have : x.id ∈ s.jobs.map (·.id) := List.mem_map_of_mem hx
+  rw [h3] at this
+  simp only [List.mem_range'_1] at this
+  omega
+
+theorem findJob_mem (s : St) (j : Nat) (x : Job) (h : findJob s j = some x) : x ∈ s.jobs ∧ x.id = j := by
+  unfold findJob at h
+  have h1 := List.mem_of_find?_eq_some h
+  have h2 := List.find?_some h
+  exact ⟨h1, by simpa using h2⟩
+
+theorem prog_step (s s' : St) (e : Ev) (hr : RingInv s) (hp : ProgInv0 s) (he : plain e = true) (hs : step s e = some s') : ProgInv0 s' := by
+  obtain ⟨p1, p2, p3⟩ := hp
+  cases e with
+  | fail j => simp [plain] at he
+  | inline z ck => simp [plain] at he
+  | post n ck =>
+    simp only [step] at hs
+    split at hs
+    · cases hs
+      refine ⟨p1, by simp; omega, ?_⟩
+      intro x hx
+      simp only [List.mem_append, List.mem_cons, List.not_mem_nil, or_false] at hx
+      rcases hx with hx | rfl
+      · exact p3 x hx
+      · simp; omega
+    · cases hs
+  | unpost =>
+    simp only [step] at hs
+    split at hs
+    · rename_i j hj
+      split at hs
+      · rename_i hc
+        cases hs
+        have hjm : j ∈ s.jobs := List.mem_of_getLast? hj
+        obtain ⟨_, _, q3, _, _⟩ := p3 j hjm
+        have hns : j.serialDone = false := by simpa using hc.2.2.2.1
+        have : ¬ j.id < s.serialNext := fun h => by rw [q3.mpr h] at hns; cases hns
+        refine ⟨p1, by simp; omega, ?_⟩
+        intro x hx
+        exact p3 x ((List.dropLast_sublist s.jobs).subset hx)
+      · cases hs
+    · cases hs
+  | serial j wa =>
+    simp only [step] at hs
+    split at hs
+    · rename_i x hx
+      split at hs
+      · rename_i hc
+        cases hs
+        obtain ⟨hxm, hxid⟩ := findJob_mem s j x hx
+        obtain ⟨b1, b2⟩ := ids_of_ring s hr x hxm
+        obtain ⟨f1, f2, f3, f4, f5, f6⟩ := updJob_fields s j (fun y => { y with serialDone := true })
+        refine ⟨by simp [f1]; omega, by simp [f2]; omega, ?_⟩
+        intro y hy
+        obtain ⟨y0, hy0, rfl⟩ := mem_updJob s j _ y hy
+        obtain ⟨q1, q2, q3, q4, q5⟩ := p3 y0 hy0
+        by_cases hid : y0.id = j
+        · simp [hid, q1, q2, q4, q5]
+        · have hb : (y0.id == j) = false := by simpa using hid
+          simp only [hb, Bool.false_eq_true, if_false]
+          refine ⟨q1, q2, ?_, q4, q5⟩
+          rw [q3, hc.1]
+          omega
+      · cases hs
+    · cases hs
+  | produce j c z =>
+    simp only [step] at hs
+    split at hs
+    · rename_i x hx
+      split at hs
+      · rename_i hc
+        cases hs
+        obtain ⟨hxm, hxid⟩ := findJob_mem s j x hx
+        obtain ⟨f1, f2, f3, f4, f5, f6⟩ := updJob_fields s j (fun y => { y with consumed := c, cSize := z })
+        refine ⟨by rw [f1, f4]; exact p1, by rw [f2, f4]; exact p2, ?_⟩
+        intro y hy
+        obtain ⟨y0, hy0, rfl⟩ := mem_updJob s j _ y hy
+        obtain ⟨q1, q2, q3, q4, q5⟩ := p3 y0 hy0
+        rw [f4]
+        by_cases hid : y0.id = j
+        · -- the ring has one job per id: y0 is the job the guard spoke about
+          have : y0 = x := by
+            have hx' := p3 x hxm
+            have hnd : (s.jobs.map (·.id)).Nodup := by rw [hr.2.2]; exact List.nodup_range'
+            exact List.eq_of_nodup_map (·.id) s.jobs y0 x hnd hy0 hxm (by rw [hid, hxid])
+          subst this
+          have hb : (y0.id == j) = true := by simpa using hid
+          simp only [hb, if_true]
+          exact ⟨q1, q2, q3, by omega, by omega⟩
+        · have hb : (y0.id == j) = false := by simpa using hid
+          simp only [hb]
+          exact ⟨q1, q2, q3, q4, q5⟩
+      · cases hs
+    · cases hs
+  | cksum =>
+    simp only [step] at hs
+    split at hs
+    · rename_i x hx
+      split at hs
+      · cases hs
+        obtain ⟨f1, f2, f3, f4, f5, f6⟩ := updJob_fields s x.id (fun y => { y with cSize := y.cSize + 4, ck := false })
+        refine ⟨by rw [f1, f4]; exact p1, by rw [f2, f4]; exact p2, ?_⟩
+        intro y hy
+        obtain ⟨y0, hy0, rfl⟩ := mem_updJob s x.id _ y hy
+        obtain ⟨q1, q2, q3, q4, q5⟩ := p3 y0 hy0
+        rw [f4]
+        by_cases hid : (y0.id == x.id) = true
+        · simp only [hid, if_true]; exact ⟨q1, q2, q3, by omega, q5⟩
+        · simp only [hid]; exact ⟨q1, q2, q3, q4, q5⟩
+      · cases hs
+    · cases hs
+  | flush b =>
+    simp only [step] at hs
+    split at hs
+    · rename_i x hx
+      split at hs
+      · rename_i hc
+        cases hs
+        have hxm : x ∈ s.jobs := List.mem_of_mem_head? hx
+        obtain ⟨f1, f2, f3, f4, f5, f6⟩ := updJob_fields s x.id (fun y => { y with flushed := y.flushed + b })
+        refine ⟨by simp only [f1, f4]; exact p1, by simp only [f2, f4]; exact p2, ?_⟩
+        intro y hy
+        simp only at hy
+        obtain ⟨y0, hy0, rfl⟩ := mem_updJob s x.id _ y hy
+        obtain ⟨q1, q2, q3, q4, q5⟩ := p3 y0 hy0
+        simp only [f4]
+        by_cases hid : y0.id = x.id
+        · have : y0 = x := by
+            have hnd : (s.jobs.map (·.id)).Nodup := by rw [hr.2.2]; exact List.nodup_range'
+            exact List.eq_of_nodup_map (·.id) s.jobs y0 x hnd hy0 hxm hid
+          subst this
+          simp only [beq_self_eq_true, if_true]
+          exact ⟨q1, q2, q3, by omega, q5⟩
+        · have hb : (y0.id == x.id) = false := by simpa using hid
+          simp only [hb]
+          exact ⟨q1, q2, q3, q4, q5⟩
+      · cases hs
+    · cases hs
+  | retire =>
+    simp only [step] at hs
+    split at hs
+    · rename_i x rest hj
+      split at hs
+      · rename_i hc
+        cases hs
+        have hxm : x ∈ s.jobs := by rw [hj]; exact List.mem_cons_self ..
+        obtain ⟨q1, q2, q3, q4, q5⟩ := p3 x hxm
+        have hsd : x.serialDone = true := by
+          rcases hc.2.1 with h | h
+          · exact h
+          · rw [q2] at h; cases h
+        have := q3.mp hsd
+        refine ⟨by simp; omega, p2, ?_⟩
+        intro y hy
+        exact p3 y (by rw [hj]; exact List.mem_cons_of_mem _ hy)
+      · cases hs
+    · cases hs
+
+/-- **no_deadlock**: on every path of the protocol made of caller and worker steps (no worker error, no caller-written last block),
+starting from an empty ring, whenever a job is outstanding some participant has an enabled step that makes progress -/
+theorem no_deadlock (evs : List Ev) (hpl : ∀ e ∈ evs, plain e = true) (m : Nat) (s : St) (hr : run { mask := m } evs = some s)
+    (hlive : s.done < s.next) :
+    ∃ e, (match e with | .post _ _ => False | .inline _ _ => False | .unpost => False | .fail _ => False | _ => True) ∧ (step s e).isSome = true := by
+  -- both invariants hold along the path
+  have key : ∀ (evs : List Ev) (s0 s1 : St), (∀ e ∈ evs, plain e = true) → RingInv s0 → ProgInv0 s0 → run s0 evs = some s1 → RingInv s1 ∧ ProgInv0 s1 := by
+    intro evs
+    induction evs with
+    | nil => intro s0 s1 _ h1 h2 hr; simp [run] at hr; subst hr; exact ⟨h1, h2⟩
+    | cons e es ih =>
+      intro s0 s1 hpl h1 h2 hr
+      simp only [run] at hr
+      split at hr
+      · rename_i sm hsm
+        exact ih sm s1 (fun e he => hpl e (List.mem_cons_of_mem _ he)) (ring_step s0 sm e h1 hsm)
+          (prog_step s0 sm e h1 h2 (hpl e (List.mem_cons_self ..)) hsm) hr
+      · cases hr
+  obtain ⟨r, p⟩ := key evs { mask := m } s hpl (by simp [RingInv]) (by simp [ProgInv0]) hr
+  refine no_deadlock_partial s r ?_ hlive
+  obtain ⟨p1, p2, p3⟩ := p
+  refine ⟨p1, ?_⟩
+  intro x hx
+  obtain ⟨q1, q2, q3, q4, q5⟩ := p3 x hx
+  exact ⟨q1, fun _ => q3, q4, q5, fun h => by rw [q2] at h; cases h⟩
 
 example : RingInv { mask := 3 } := by simp [RingInv]
 example : (run { mask := 1 } [.post 10 false, .post 20 false, .serial 0 true, .produce 0 10 7, .serial 1 true, .flush 7, .retire, .post 5 true, .produce 1 20 3]).isSome = true := by decide
